@@ -12,7 +12,14 @@ use std::sync::atomic::{AtomicBool, AtomicU64, Ordering};
 use std::sync::Mutex;
 use std::time::Instant;
 
-pub const VERIF_DIR: &str = "/verif";
+/// root of the verification tree (evidence, replays, regress, known_findings.json): the directory the
+/// `check` script lives in (exported as VERIF_ROOT), /verif by default
+pub fn verif_dir() -> PathBuf {
+    match std::env::var("VERIF_ROOT") {
+        Ok(p) if !p.is_empty() => PathBuf::from(p),
+        _ => PathBuf::from("/verif"),
+    }
+}
 
 #[derive(Copy, Clone, Debug, PartialEq, Eq)]
 pub enum Tier {
@@ -179,7 +186,7 @@ pub struct KnownFindings {
 
 impl KnownFindings {
     pub fn load() -> Self {
-        let p = Path::new(VERIF_DIR).join("known_findings.json");
+        let p = verif_dir().join("known_findings.json");
         let Ok(txt) = std::fs::read_to_string(&p) else {
             return Self::default();
         };
@@ -415,7 +422,7 @@ impl Ctx {
 
     /// Register a violation: writes the artefact and prints the VIOLATION line.
     pub fn violation(&mut self, fail: &Fail, tape: Option<&[u8]>) {
-        let dir = Path::new(VERIF_DIR).join("replays").join(self.id);
+        let dir = verif_dir().join("replays").join(self.id);
         let _ = std::fs::create_dir_all(&dir);
         let h = hash64(&fail.artifact);
         let path = dir.join(format!("{:016x}.{}", h, fail.ext));
@@ -678,7 +685,7 @@ impl Ctx {
             "wall_s": (wall * 1000.0).round() / 1000.0,
             "violations": self.violations.len(),
         });
-        let dir = Path::new(VERIF_DIR).join("evidence");
+        let dir = verif_dir().join("evidence");
         let _ = std::fs::create_dir_all(&dir);
         // a partial run (e.g. the `tracing` feature build of C01) writes elsewhere and is merged by the main run
         let path = match std::env::var("VERIF_PART_FILE") {
@@ -707,7 +714,7 @@ impl Ctx {
 
 /// files in /verif/regress/<ID>/ sorted by name
 pub fn regress_files(id: &str) -> Vec<PathBuf> {
-    let dir = Path::new(VERIF_DIR).join("regress").join(id);
+    let dir = verif_dir().join("regress").join(id);
     let mut v: Vec<PathBuf> = std::fs::read_dir(dir)
         .map(|rd| rd.filter_map(|e| e.ok().map(|e| e.path())).collect())
         .unwrap_or_default();
